@@ -58,6 +58,7 @@ static const char *opname(uint8_t op) {
 }
 
 void pev_name(const pev *e, char *out, size_t cap) {
+    if (e->opcode == 0xF0 && e->tos == 0xEE) { snprintf(out, cap, "Env(platform icon changes)"); return; }
     size_t o = (size_t)snprintf(out, cap, "%s", opname(e->opcode));
     if (e->opcode >= 13) o += (size_t)snprintf(out + o, cap - o, "0x%02x", e->opcode);
     o += (size_t)snprintf(out + o, cap - o, "(tos=%u,from=%s", e->tos, vf_station_name(e->realsrc));
@@ -85,6 +86,7 @@ void drv_linux_deliver(int iface, const uint8_t *frame, size_t len) {
 
 void drv_linux(const pev *e, int iface) {
     static uint8_t buf[VF_MAXMTU + 64];
+    if (e->opcode == 0xF0 && e->tos == 0xEE) { W.env.icon_epoch ^= 1; return; }   /* environment event, not a frame */
     /* complete frames into a zeroed buffer: every byte the core reads was received */
     vf_iface *f = &W.iface[iface];
     memset(f->recv, 0, f->recv_prev_len);
@@ -133,4 +135,84 @@ pev ev_raw(uint8_t tos, uint8_t opcode, int realsrc, int ethsrc) {
     e.opcode = opcode; e.tos = tos; e.realsrc = (uint8_t)realsrc; e.ethsrc = (uint8_t)ethsrc; e.realdst = ST_OWN; e.ethdst = ST_OWN; e.own_pos = -1;
     e.pad_to = 64;
     return e;
+}
+
+int sigma_build(pev *out, int cap, int variant) {
+    int n = 0;
+#define ADD(x) do { if (n < cap) out[n] = (x); n++; } while (0)
+    if (variant == SIGMA_SMALL) {
+        ADD(ev_discover(0, ST_M1, ST_M1, 0x1234, 1));
+        ADD(ev_discover(1, ST_M2, ST_BR, 0xFFFF, 0));
+        ADD(ev_discover(0, ST_M2, ST_M2, 0, 1));
+        ADD(ev_reset(0, ST_M1)); ADD(ev_reset(1, ST_M1));
+        ADD(ev_hello(0, ST_PEER, 0x3412));
+        ADD(ev_probe(0x04, 0, ST_S0, ST_S0, ST_OWN, ST_OWN));
+        ADD(ev_probe(0x03, 0, ST_S1, ST_BR, ST_OWN, ST_OWN));
+        ADD(ev_probe(0x04, 0, ST_S0, ST_S0, ST_PEER, ST_PEER));
+        ADD(ev_emit1(0, ST_M1, ST_M1, 7, 1, 3, ST_S0, ST_PEER));
+        ADD(ev_query(0, ST_M1, ST_M1, 2));
+        ADD(ev_query(0, ST_M2, ST_BR, 9));
+        ADD(ev_qlt(0, ST_M1, ST_M1, 5, 0x0E, 0));
+        ADD(ev_qlt(1, ST_M1, ST_M1, 5, 0x0E, 1000));
+        ADD(ev_qlt(0, ST_M1, ST_M1, 5, 0x11, 0));
+        ADD(ev_qlt(0, ST_M1, ST_M1, 0, 0x0E, 0));
+        ADD(ev_raw(2, 0, ST_M3, ST_M3)); ADD(ev_raw(0, 9, ST_M1, ST_M1));
+        ADD(ev_raw(0xEE, 0xF0, ST_ZERO, ST_ZERO));
+        return n;
+    }
+    /* Discover family */
+    if (variant == SIGMA_P) {
+        static const uint16_t gens[] = {0, 0x1234, 0xFFFF}; static const uint16_t seqs[] = {0, 1};
+        for (int tos = 0; tos < 2; tos++) for (int m = 0; m < 2; m++) for (int br = 0; br < 2; br++)
+            for (unsigned g = 0; g < 3; g++) for (unsigned s = 0; s < 2; s++) {
+                int st = m ? ST_M2 : ST_M1;
+                ADD(ev_discover((uint8_t)tos, st, br ? ST_BR : st, gens[g], seqs[s]));
+            }
+    } else {
+        static const uint16_t gens[] = {0, 1, 0x00FF, 0xFF00, 0x1234, 0xFFFF}; static const uint16_t seqs[] = {0, 1, 0xABCD};
+        static const int sts[] = {ST_M1, ST_M2, ST_M3};
+        for (int tos = 0; tos < 2; tos++) for (int m = 0; m < 3; m++) for (int br = 0; br < 2; br++)
+            for (unsigned g = 0; g < 6; g++) for (unsigned s = 0; s < 3; s++)
+                ADD(ev_discover((uint8_t)tos, sts[m], br ? ST_BR : sts[m], gens[g], seqs[s]));
+        /* a Discover whose station list names us (acknowledging form) */
+        pev d = ev_discover(0, ST_M1, ST_M1, 0x0102, 2); d.nsta = 3; d.own_pos = 1; ADD(d);
+    }
+    ADD(ev_reset(0, ST_M1)); ADD(ev_reset(1, ST_M1));
+    ADD(ev_hello(0, ST_PEER, 0x3412));
+    if (variant == SIGMA_DISC) { ADD(ev_hello(1, ST_PEER, 0x3412)); ADD(ev_hello(0, ST_M2, 0x0001)); ADD(ev_hello(0, ST_PEER, 0xFF00)); }
+    ADD(ev_probe(0x04, 0, ST_S0, ST_S0, ST_OWN, ST_OWN));
+    if (variant == SIGMA_P) {
+        ADD(ev_probe(0x03, 0, ST_S0, ST_S0, ST_OWN, ST_OWN));
+        ADD(ev_probe(0x04, 0, ST_S1, ST_BR, ST_OWN, ST_OWN));
+        ADD(ev_probe(0x03, 0, ST_S1, ST_BR, ST_OWN, ST_OWN));
+        ADD(ev_probe(0x04, 0, ST_S0, ST_S0, ST_PEER, ST_PEER));
+        ADD(ev_probe(0x03, 0, ST_S0, ST_S0, ST_PEER, ST_OWN));
+    }
+    ADD(ev_emit1(0, ST_M1, ST_M1, 7, 1, 0, ST_S0, ST_PEER));
+    if (variant == SIGMA_P) {
+        pev e = ev_emit1(0, ST_M1, ST_M1, 8, 1, 1, ST_S0, ST_PEER);
+        e.nd = 2; e.d[1].type = 0; e.d[1].pause = 0; e.d[1].src = ST_OWN; e.d[1].dst = ST_S1; ADD(e);
+        e = ev_emit1(0, ST_M2, ST_BR, 0xFFFE, 0, 255, ST_OWN, ST_BC);
+        e.nd = 3; e.d[1].type = 1; e.d[1].pause = 7; e.d[1].src = ST_S1; e.d[1].dst = ST_PEER;
+        e.d[2].type = 0xFF; e.d[2].pause = 1; e.d[2].src = ST_S0; e.d[2].dst = ST_PEER; ADD(e);
+        ADD(ev_emit1(1, ST_M1, ST_M1, 7, 1, 0, ST_S0, ST_PEER));
+    }
+    ADD(ev_query(0, ST_M1, ST_M1, 2));
+    if (variant == SIGMA_P) { ADD(ev_query(0, ST_M2, ST_BR, 0xFFFE)); ADD(ev_query(1, ST_M1, ST_M1, 2)); }
+    ADD(ev_qlt(0, ST_M1, ST_M1, 5, 0x0E, 0));
+    if (variant == SIGMA_P) {
+        ADD(ev_qlt(0, ST_M1, ST_M1, 5, 0x0E, 1000)); ADD(ev_qlt(0, ST_M1, ST_M1, 5, 0x0E, 2600)); ADD(ev_qlt(0, ST_M1, ST_M1, 5, 0x0E, 0xFFFF));
+        ADD(ev_qlt(1, ST_M1, ST_M1, 5, 0x0E, 0)); ADD(ev_qlt(1, ST_M2, ST_BR, 6, 0x0E, 500));
+        ADD(ev_qlt(0, ST_M1, ST_M1, 5, 0x11, 0)); ADD(ev_qlt(1, ST_M1, ST_M1, 5, 0x11, 4));
+        ADD(ev_qlt(0, ST_M1, ST_M1, 5, 0x13, 0)); ADD(ev_qlt(0, ST_M1, ST_M1, 5, 0x13, 63));
+        ADD(ev_qlt(0, ST_M1, ST_M1, 5, 0x42, 0)); ADD(ev_qlt(0, ST_M1, ST_M1, 0, 0x0E, 0)); ADD(ev_qlt(1, ST_M1, ST_M1, 0, 0x11, 0));
+        /* foreign frames */
+        static const uint8_t ftos[] = {2, 3, 0xFF}; static const uint8_t fop[] = {0, 1, 6, 8};
+        for (unsigned t = 0; t < 3; t++) for (unsigned o = 0; o < 4; o++) ADD(ev_raw(ftos[t], fop[o], ST_M3, ST_M3));
+        static const uint8_t uop[] = {5, 7, 9, 0x0C, 0x0D, 0xFF};
+        for (int tos = 0; tos < 2; tos++) for (unsigned o = 0; o < 6; o++) ADD(ev_raw((uint8_t)tos, uop[o], ST_M1, ST_M1));
+        ADD(ev_raw(0xEE, 0xF0, ST_ZERO, ST_ZERO));     /* the platform's icon changes */
+    }
+#undef ADD
+    return n;
 }
